@@ -294,7 +294,7 @@ func (f *Frame) callContract(i *ssa.Call, g *ssa.Function, fc2 *FuncContract, ke
 		f.oblige("pre[nonnil]@"+site, nil, r, "(not (= "+args[0].T+" 0))")
 	}
 	for _, rq := range fc2.Requires {
-		goal, err := ev.evalBool(rq.Expr)
+		goal, err := c.skolemGoal(rq.Expr, ev, r)
 		if err != nil {
 			c.errorf("%s: requires of %s at call: %v", rq.Where, key, err)
 			f.unbound("pre"+rq.Tag()+"@"+site, rq, err)
@@ -363,6 +363,7 @@ func (f *Frame) callContract(i *ssa.Call, g *ssa.Function, fc2 *FuncContract, ke
 			continue
 		}
 		c.assume(r, g2)
+		c.noteHyp(en.Expr, post, r)
 	}
 	return pack(vals)
 }
@@ -586,9 +587,13 @@ func (f *Frame) callLib(i *ssa.Call, g *ssa.Function, args []Val, st *State, r s
 		res := Val{T: c.fresh("sorted", s.S), S: s.S}
 		c.assume(r, "(= "+c.slLen(res)+" "+c.slLen(s)+")")
 		c.assume(r, "(= "+c.slOff(res)+" 0)")
-		c.assume(r, "(forall ((a! Int) (b! Int)) (=> (and (<= 0 a!) (< a! b!) (< b! "+c.slLen(res)+")) (<= (select "+c.slArr(res)+" a!) (select "+c.slArr(res)+" b!))))")
-		// permutation: same membership and (for duplicate-free input) strictness is derivable by the caller's invariant
-		c.assume(r, "(forall ((v! Int)) (= (exists ((a! Int)) (and (<= 0 a!) (< a! "+c.slLen(res)+") (= (select "+c.slArr(res)+" a!) v!))) (exists ((a! Int)) (and (<= 0 a!) (< a! "+c.slLen(s)+") (= (select "+c.slArr(s)+" (+ "+c.slOff(s)+" a!)) v!)))))")
+		c.assume(r, "(forall ((a! Int) (b! Int)) (! (=> (and (<= 0 a!) (< a! b!) (< b! "+c.slLen(res)+")) (<= (select "+c.slArr(res)+" a!) (select "+c.slArr(res)+" b!))) :pattern ((select "+c.slArr(res)+" a!) (select "+c.slArr(res)+" b!))))")
+		// the result is a rearrangement of the argument: res[a] == s[perm(a)] for an injective perm on [0,len)
+		c.nfresh++
+		pm := fmt.Sprintf("sortperm!%d", c.nfresh)
+		c.decls = append(c.decls, "(declare-fun "+pm+" (Int) Int)")
+		c.assume(r, "(forall ((a! Int)) (! (=> (and (<= 0 a!) (< a! "+c.slLen(res)+")) (and (<= 0 ("+pm+" a!)) (< ("+pm+" a!) "+c.slLen(s)+") (= (select "+c.slArr(res)+" a!) (select "+c.slArr(s)+" ("+pm+" a!))))) :pattern ((select "+c.slArr(res)+" a!))))")
+		c.assume(r, "(forall ((a! Int) (b! Int)) (! (=> (and (<= 0 a!) (< a! b!) (< b! "+c.slLen(res)+")) (not (= ("+pm+" a!) ("+pm+" b!)))) :pattern (("+pm+" a!) ("+pm+" b!))))")
 		if s.Origin != nil {
 			c.store(st, s.Origin, res)
 		} else {
